@@ -42,6 +42,12 @@ def oracle(spec: dict, res: dict, failing: bool):
             types = sorted(tok[x][3] for x in d if x in tok)
             if types.count("JobToken") != 1 or len(d) != len(n["ins"]) + 1:
                 yield "job-output-not-linked-to-job-token-and-inputs", f"exec node {n['id']} output {tag}: dependee types {types}, {len(n['ins'])} inputs"
+            else:
+                # ... to ITS job token and to the inputs of THAT job: every dependee carries the tag of the job
+                wrong = sorted((tok[x][3], tok[x][2]) for x in d if x in tok and tok[x][2] != tag)
+                if wrong:
+                    yield "job-output-linked-to-another-job-or-other-inputs", (
+                        f"exec node {n['id']} output {tag} depends on tokens with other tags: {wrong[:4]} (type, tag)")
 
 
 class C07(Property):
@@ -101,11 +107,14 @@ class C07(Property):
             spec = wfgen.gen_spec(rng, size=rng.randint(2, 12), features=feats)
             if i < len(wfgen.CORPUS):
                 spec = json.loads(json.dumps(wfgen.CORPUS[i]))
-            failing = rng.random() < 0.33
+            failing = rng.random() < 0.33 and i >= len(wfgen.CORPUS)      # the corpus always runs failure-free: exact edge sets
             fspec = wfgen.choose_failure(rng, spec, loop_upstream_prob=0.0) if failing else None   # loop hangs belong to C04
             if fspec is None:
                 failing = False
-            items.append((spec, failing, fspec or spec, [rng.randrange(1 << 30) for _ in range(k)]))
+            seeds = [rng.randrange(1 << 30) for _ in range(k)]
+            if i < len(wfgen.CORPUS):
+                seeds = [2 + j for j in range(k)]      # corpus: fixed schedules, the first one with reverse job completion order
+            items.append((spec, failing, fspec or spec, seeds))
         for i, (spec, failing, run_spec, seeds) in enumerate(items):
             if ctx.out_of_time():
                 ctx.extra["incomplete"] = True
